@@ -258,6 +258,27 @@ def Mono.evalAtPi (p : Rat) (env : List (String × Rat)) (m : Mono) : Option Rat
   | some pk, some r => some (m.coef * pk * r)
   | _, _ => none
 
+/-- `a / b` with `π := p` and the base constants from `env` (both in the multiplicative
+    fragment, integer exponents after cancellation) -/
+def ratioAtPi (env : List (String × Rat)) (p : Rat) (a b : CExpr) : Option Rat :=
+  match norm a, norm b with
+  | some m, some n => if n.coef = 0 then none else (m.quot n).evalAtPi p env
+  | _, _ => none
+
+def Mono.square (m : Mono) : Mono := ⟨m.coef * m.coef, m.atoms.pow 2⟩
+
+/-- `a²` with `π := p` (squares turn the half-integer exponents of `sqrt` into integers) -/
+def squareAtPi (env : List (String × Rat)) (p : Rat) (a : CExpr) : Option Rat :=
+  match norm a with
+  | some m => m.square.evalAtPi p env
+  | none => none
+
+/-- sign of the coefficient of the normal form -/
+def coefOf (a : CExpr) : Rat :=
+  match norm a with
+  | some m => m.coef
+  | none => 0
+
 /-! ### `add_constants` (unit_systems.py) and the namespace precedence (`__init__.py`) -/
 
 /-- one row of `physical_constants`: name ↦ (value, unit string, alternate names) -/
